@@ -792,14 +792,15 @@ def mesh_motion_rule(ctx, rid="R8.15"):
     r = ctx.rule(rid, "mesh motions: Translate / Rotate / Symmetry / coord assignment hand the moved coordinates to every element group (all dimensions) and notify", min_instances=4)
     mesh = repo.cls("EasyFEA.FEM._mesh.Mesh")
 
-    class G:
-        _xeval_open = True
+    ge = repo.cls(GE)
+    inval = []
 
-        def __init__(self, dim, coord):
-            self.dim, self.inDim = dim, 2
-            self.nodes = XArray((3,), [0, 1, 2])
-            self.coord = coord
-            self.Ncoords = 3
+    def G(dim, coord, tag=None):
+        # a real element-group object (its own coord setter and whatever helper the mesh calls on it are interpreted);
+        # _InitMatrix -- the invalidation of the memoised geometric factors -- is recorded
+        g = XObj(ge, {"dim": dim, "inDim": 2, "nodes": XArray((3,), [0, 1, 2], "i"), "Ncoords": 3, ge.mangle("__coord"): coord})
+        g.attrs["_InitMatrix"] = lambda g=g: inval.append(id(g))
+        return g
 
     old = XArray((3, 3), [Poly.var(f"x{n}{c}") for n in range(3) for c in range(3)])
     moved = XArray((3, 3), [Poly.var(f"m{n}{c}") for n in range(3) for c in range(3)])
@@ -813,6 +814,7 @@ def mesh_motion_rule(ctx, rid="R8.15"):
     for label, f, args, want in cases:
         r.instance(fn=f.qualname)
         groups = {"TRI3": G(2, XArray(old.shape, list(old.data))), "SEG2": G(1, XArray(old.shape, list(old.data))), "POINT": G(0, XArray(old.shape, list(old.data)))}
+        del inval[:]
         notes = []
         obj = XObj(mesh, {mesh.mangle("__dict_groupElem"): groups, mesh.mangle("__dim"): 2, "_Notify": lambda *a, **k: notes.append(a)})
 
@@ -825,8 +827,12 @@ def mesh_motion_rule(ctx, rid="R8.15"):
         I = Interp(repo)
         I.call_hook = hook
         I.call_function(f, args, self_obj=obj)
-        stale = [t for t, g in groups.items() if not (isinstance(g.coord, XArray) and g.coord.shape == want.shape and all(is_zero(Poly.of(a) - Poly.of(b)) for a, b in zip(g.coord.data, want.data)))]
-        if stale:
+        cur = {t: g.attrs.get(ge.mangle("__coord")) for t, g in groups.items()}
+        stale = [t for t, c in cur.items() if not (isinstance(c, XArray) and c.shape == want.shape and all(is_zero(Poly.of(a) - Poly.of(b)) for a, b in zip(c.data, want.data)))]
+        kept = [t for t, g in groups.items() if id(g) not in inval]
+        if not stale and kept:
+            r.fail(f.qualname, f"memo-kept:{label}", f.file, f.lineno, f"Mesh.{label}", f"Mesh.{label}: the element group(s) {kept} receive the moved coordinates without re-initialising their memoised geometric factors (F, invF, jacobian, ...): the embedding dimension read from the coordinates can change with the motion (a planar mesh moved out of its plane), the kept inverse Jacobians then belong to another frame than the freshly computed mappings")
+        elif stale:
             r.fail(f.qualname, f"motion:{label}", f.file, f.lineno, f"Mesh.{label}", f"Mesh.{label}: the element group(s) {stale} keep their coordinates (or receive other ones): boundary normals, boundary integrals and the measure after the next motion are computed from two different geometries")
         elif not notes:
             r.fail(f.qualname, f"notify:{label}", f.file, f.lineno, f"Mesh.{label}", f"Mesh.{label} does not notify the observers")
